@@ -18,9 +18,10 @@ FAULTS = [(-32000, "x", None), (5, "é", 0), (0, "", [1]), (-32700, "p", {"k": 1
 METHODS = [None, "m", "é", "", 5, ["m"]]
 PARAMS = [None, [], [1], (), (1, 2), {}, {"a": 1}, 5, "s", True, 0, "", False, 0.0, [0], [None], {"a": None}, [[]]] + [
     ("FAULT", i) for i in range(len(FAULTS))
-]
+] + [("FAULTID", 0), ("FAULTID", 1)] + [  # Faults that carry an id of their own (the caller's id still wins)
+    gen.SUBTYPE_VALUES[0], gen.SUBTYPE_VALUES[1], gen.SUBTYPE_VALUES[3], gen.SUBTYPE_VALUES[4], gen.SUBTYPE_VALUES[5], gen.MyList(), gen.SUBTYPE_VALUES[6]]
 RPCIDS = [None, "", "a", "0", 0, 0.0, 1, -1, 1.5, 2 ** 53]
-VERSIONS = [None, 1.0, 2.0, "1.0", "2.0"]
+VERSIONS = [None, 1.0, 2.0, "1.0", "2.0", 1, 2]
 FLAGS = [None, True]
 CONFIGS = ["default", "v1", "nojsonclass"]
 
@@ -34,10 +35,16 @@ def mkconfig(name):
 
 
 def mkparams(p):
-    if isinstance(p, tuple) and len(p) == 2 and p[0] == "FAULT":
+    if is_fault_marker(p):
         c, m, d = FAULTS[p[1]]
+        if p[0] == "FAULTID":
+            return J.Fault(c, m, rpcid=(41, "own")[p[1]], data=d)
         return J.Fault(c, m, data=d)
     return p
+
+
+def is_fault_marker(p):
+    return type(p) is tuple and len(p) == 2 and p[0] in ("FAULT", "FAULTID")
 
 
 def is_caller_id(rpcid):
@@ -56,7 +63,7 @@ def expect(method, params, rpcid, version, resp, notify, cfgname):
     """Reference envelope: returns ('raise',) | ('silent',) | ('request'|'notify'|'result'|'error', version)"""
     cfg = mkconfig(cfgname)
     v = float(version) if version else float(cfg.version)
-    is_fault = isinstance(params, tuple) and len(params) == 2 and params[0] == "FAULT"
+    is_fault = is_fault_marker(params)
     is_container = params is None or isinstance(params, (list, tuple, dict))
     if is_fault:
         if method is None and resp:
@@ -220,10 +227,10 @@ def _leg_envelope(via):
 
 
 def check_ids(case):
-    version, notify_between = case
+    version, notify_between, n = case
     out = Out(cls="ids")
     ids = []
-    for i in range(3000):
+    for i in range(n):
         d = J.dump([i], "m", None, version, None, None)
         ids.append(d["id"])
         if notify_between:
@@ -236,7 +243,9 @@ def check_ids(case):
 
 
 def leg_ids(part, tier, shard, nshards):
-    drive(part, "ids", itertools.product([None, 1.0, 2.0], [False, True]), shard, nshards, check_ids)
+    # one long run crosses every power-of-two boundary up to 2**16 (thorough 2**19): counters that wrap are reported
+    cases = list(itertools.product([None, 1.0, 2.0], [False, True], [3000])) + [(2.0, False, 600000 if tier == "thorough" else 70000)]
+    drive(part, "ids", cases, shard, nshards, check_ids)
 
 
 # -- Fault.response / Fault.dump ----------------------------------------------
@@ -516,7 +525,7 @@ def replay(case):
         if J.loads("") is not None:
             r.append(("C14/loads-empty", "loads('') is not None"))
         return r
-    c = eval(case["case"], {"__builtins__": {}}, {})
+    c = eval(case["case"], dict(gen.SUBTYPE_ENV, __builtins__={}), {})
     if leg.startswith("envelope-"):
         del GENERATED[:]
         return check_envelope(c, leg.split("-", 1)[1]).viols
